@@ -3,7 +3,7 @@
     positive results outside the classes for EXPUNGE, SEARCH, UID SEARCH. *)
 From Coq Require Import String Ascii List Bool Arith ZArith Lia.
 From Raven Require Import Base.GoStr Base.GoStrFacts Base.GoStrZ Model.SeqSet Model.Expunge
-  Spec.SeqSet Spec.SeqSetFindings Proof.SeqSetStr Proof.SeqSetParse Proof.ExpungeReplay.
+  Spec.SeqSet Spec.SeqSetFindings Proof.SeqSetStr Proof.SeqSetParse Proof.ExpungeReplay Proof.DeletedWord.
 Import ListNotations.
 Local Open Scope Z_scope.
 
@@ -92,25 +92,17 @@ Lemma copy_word_is_no_set total : parse_seqset_db (S_ "COPY") total = [].
 Proof. unfold parse_seqset_db. destruct (total =? 0); reflexivity. Qed.
 
 (** ---- EXPUNGE removes exactly the messages carrying the \Deleted atom ---- *)
-Lemma classify_expunge_none mbox : classify_expunge mbox = None ->
-  forall m, In m mbox -> sql_deleted (m_flags m) = has_deleted (m_flags m).
-Proof.
-  unfold classify_expunge. destruct (existsb _ mbox) eqn:E; [discriminate|]. intros _ m Hm.
-  destruct (Bool.eqb (sql_deleted (m_flags m)) (has_deleted (m_flags m))) eqn:Q; [now apply eqb_prop|].
-  assert (X : existsb (fun m => negb (Bool.eqb (sql_deleted (m_flags m)) (has_deleted (m_flags m)))) mbox = true)
-    by (apply existsb_exists; exists m; split; [exact Hm | now rewrite Q]).
-  congruence.
-Qed.
-
 Theorem expunge_exact_deleted mbox :
-  NoDup (map m_id mbox) -> classify_expunge mbox = None ->
+  NoDup (map m_id mbox) -> flags_blank_ws mbox = true ->
   snd (handle_expunge mbox) = filter (fun m => negb (has_deleted (m_flags m))) mbox
   /\ handle_close mbox = filter (fun m => negb (has_deleted (m_flags m))) mbox
   /\ replay (fst (handle_expunge mbox)) mbox = snd (handle_expunge mbox).
 Proof.
   intros Hnd Hc. pose proof (expunge_replay mbox Hnd) as R. destruct (handle_expunge mbox) as [ns mb].
   destruct R as [R1 R2]. cbn [fst snd]. rewrite close_exact by exact Hnd.
-  rewrite <- (filter_deleted_spec mbox (classify_expunge_none mbox Hc)). subst mb. auto.
+  assert (K : forall m, In m mbox -> sql_deleted (m_flags m) = has_deleted (m_flags m)).
+  { intros m Hm. apply sql_deleted_is_flag_atom. unfold flags_blank_ws in Hc. rewrite forallb_forall in Hc. now apply Hc. }
+  rewrite <- (filter_deleted_spec mbox K). subst mb. auto.
 Qed.
 
 (** ---- SEARCH <set> outside the classes ---- *)
